@@ -348,6 +348,141 @@ proof fn lemma_same_rank_same_entry_kt<C: Cursor>(cs: Seq<C>, e1: Ent, e2: Ent)
     assert(cs[i1].ents()[j1].key == cs[i2].ents()[j2].key);
 }
 
+// ---------------------------------------------------------------- every rank below the total is taken (counting)
+// position in a table just above an optional entry (None = before everything)
+spec fn above(s: Seq<Ent>, oe: OK) -> int { match oe { None => 0, Some(e) => cle(s, e.0, e.1) } }
+spec fn sum_above<C: Cursor>(cs: Seq<C>, oe: OK) -> int { sumf(cs, |c: C| above(c.ents(), oe)) }
+// among the children below index k, the one whose first entry above `oe` is least (if any has one)
+proof fn find_min_above<C: Cursor>(cs: Seq<C>, oe: OK, k: int) -> (r: Option<int>)
+    requires all_sorted(cs), 0 <= k <= cs.len()
+    ensures match r {
+        Some(i) => 0 <= i < k && above(cs[i].ents(), oe) < cs[i].ents().len()
+            && forall|x: int| 0 <= x < k && above(cs[x].ents(), oe) < cs[x].ents().len()
+                ==> !kt_lt(#[trigger] cs[x].ents()[above(cs[x].ents(), oe)].key, cs[x].ents()[above(cs[x].ents(), oe)].ts,
+                           cs[i].ents()[above(cs[i].ents(), oe)].key, cs[i].ents()[above(cs[i].ents(), oe)].ts),
+        None => forall|x: int| 0 <= x < k ==> above(#[trigger] cs[x].ents(), oe) >= cs[x].ents().len(),
+    }
+    decreases k
+{
+    if k == 0 { None }
+    else {
+        let prev = find_min_above(cs, oe, k - 1);
+        let s = cs[k - 1].ents(); let p = above(s, oe);
+        if p >= s.len() { prev }
+        else {
+            match prev {
+                None => Some(k - 1),
+                Some(i) => {
+                    let a = cs[i].ents()[above(cs[i].ents(), oe)]; let b = s[p];
+                    if kt_lt(b.key, b.ts, a.key, a.ts) {
+                        assert forall|x: int| 0 <= x < k && above(cs[x].ents(), oe) < cs[x].ents().len()
+                            implies !kt_lt(#[trigger] cs[x].ents()[above(cs[x].ents(), oe)].key, cs[x].ents()[above(cs[x].ents(), oe)].ts, b.key, b.ts) by {
+                            let c = cs[x].ents()[above(cs[x].ents(), oe)];
+                            if x < k - 1 && kt_lt(c.key, c.ts, b.key, b.ts) { lemma_kt_trans(c.key, c.ts, b.key, b.ts, a.key, a.ts); }
+                        }
+                        Some(k - 1)
+                    } else { Some(i) }
+                }
+            }
+        }
+    }
+}
+proof fn lemma_above_bounds(s: Seq<Ent>, oe: OK)
+    requires sorted(s)
+    ensures 0 <= above(s, oe) <= s.len(),
+        forall|i: int| 0 <= i < above(s, oe) ==> oe is Some && !kt_lt(oe->Some_0.0, oe->Some_0.1, #[trigger] s[i].key, s[i].ts),
+        forall|i: int| above(s, oe) <= i < s.len() ==> oe is Some ==> kt_lt(oe->Some_0.0, oe->Some_0.1, #[trigger] s[i].key, s[i].ts),
+{
+    if oe is Some { lemma_cle(s, oe->Some_0.0, oe->Some_0.1); }
+}
+// if the children sit just above `oe` and not all are exhausted, the least of their current entries has rank = the sum of the positions
+proof fn lemma_rank_exists_above<C: Cursor>(cs: Seq<C>, oe: OK)
+    requires all_sorted(cs), distinct(cs), sum_above(cs, oe) < total(cs)
+    ensures has_rank(cs, sum_above(cs, oe))
+{
+    let r = find_min_above(cs, oe, cs.len() as int);
+    match r {
+        None => {
+            assert forall|x: int| 0 <= x < cs.len() implies (|c: C| c.ents().len() as int)(#[trigger] cs[x]) <= (|c: C| above(c.ents(), oe))(cs[x]) by { }
+            lemma_sum_le(cs, |c: C| c.ents().len() as int, |c: C| above(c.ents(), oe));
+        }
+        Some(i) => {
+            let e2 = cs[i].ents()[above(cs[i].ents(), oe)];
+            lemma_above_bounds(cs[i].ents(), oe);
+            assert(0 <= i < cs.len() && 0 <= above(cs[i].ents(), oe) < cs[i].ents().len() && cs[i].ents()[above(cs[i].ents(), oe)] == e2);
+            assert(member(cs, e2));
+            assert forall|x: int| 0 <= x < cs.len() implies (|c: C| clt(c.ents(), e2.key, e2.ts))(#[trigger] cs[x]) == (|c: C| above(c.ents(), oe))(cs[x]) by {
+                let s = cs[x].ents(); let p = above(s, oe);
+                lemma_above_bounds(s, oe); lemma_above_bounds(cs[i].ents(), oe);
+                assert forall|y: int| 0 <= y < p implies kt_lt(#[trigger] s[y].key, s[y].ts, e2.key, e2.ts) by {
+                    // s[y] <= oe < e2
+                    let o = oe->Some_0;
+                    lemma_kt_total(s[y].key, s[y].ts, o.0, o.1);
+                    if kt_lt(s[y].key, s[y].ts, o.0, o.1) { lemma_kt_trans(s[y].key, s[y].ts, o.0, o.1, e2.key, e2.ts); }
+                }
+                assert forall|y: int| p <= y < s.len() implies !kt_lt(#[trigger] s[y].key, s[y].ts, e2.key, e2.ts) by {
+                    let cur = s[p];
+                    assert(!kt_lt(cur.key, cur.ts, e2.key, e2.ts));
+                    if y > p && kt_lt(s[y].key, s[y].ts, e2.key, e2.ts) { assert(kt_lt(cur.key, cur.ts, s[y].key, s[y].ts)); lemma_kt_trans(cur.key, cur.ts, s[y].key, s[y].ts, e2.key, e2.ts); }
+                }
+                lemma_clt_unique(s, e2.key, e2.ts, p);
+            }
+            lemma_sum_eq(cs, |c: C| clt(c.ents(), e2.key, e2.ts), |c: C| above(c.ents(), oe));
+            assert(grank(cs, e2.key, e2.ts) == sum_above(cs, oe));
+        }
+    }
+}
+proof fn lemma_all_ranks<C: Cursor>(cs: Seq<C>, r: int)
+    requires all_sorted(cs), distinct(cs), 0 <= r < total(cs)
+    ensures has_rank(cs, r)
+    decreases r
+{
+    if r == 0 {
+        lemma_sum_zero(cs);
+        assert(sum_above(cs, None) == 0) by { lemma_sum_eq(cs, |c: C| above(c.ents(), None), |c: C| 0int); }
+        lemma_rank_exists_above(cs, None);
+    } else {
+        lemma_all_ranks(cs, r - 1);
+        let e = choose|e: Ent| member(cs, e) && #[trigger] grank(cs, e.key, e.ts) == r - 1;
+        let (w, j) = choose|i: int, j: int| 0 <= i < cs.len() && 0 <= j < cs[i].ents().len() && #[trigger] cs[i].ents()[j] == e;
+        lemma_sum_cle_weak(cs, w, j);
+        assert(sum_above(cs, Some((e.key, e.ts))) == r) by {
+            lemma_sum_eq(cs, |c: C| above(c.ents(), Some((e.key, e.ts))), |c: C| cle(c.ents(), e.key, e.ts));
+        }
+        lemma_rank_exists_above(cs, Some((e.key, e.ts)));
+    }
+}
+// the counting fact for an entry of the family, from sortedness and distinctness alone
+proof fn lemma_sum_cle_weak<C: Cursor>(cs: Seq<C>, w: int, j: int)
+    requires all_sorted(cs), distinct(cs), 0 <= w < cs.len(), 0 <= j < cs[w].ents().len()
+    ensures sumf(cs, |c: C| cle(c.ents(), cs[w].ents()[j].key, cs[w].ents()[j].ts)) == grank(cs, cs[w].ents()[j].key, cs[w].ents()[j].ts) + 1
+{
+    let e = cs[w].ents()[j];
+    let f = |c: C| cle(c.ents(), e.key, e.ts);
+    let g = |c: C| clt(c.ents(), e.key, e.ts);
+    assert forall|i: int| 0 <= i < cs.len() implies f(#[trigger] cs[i]) == g(cs[i]) + (if i == w { 1int } else { 0int }) by {
+        let s = cs[i].ents();
+        lemma_cle_clt(s, e.key, e.ts);
+        if i == w { assert(s[j].key == e.key && s[j].ts == e.ts); }
+        else if exists|y: int| 0 <= y < s.len() && #[trigger] s[y].key == e.key && s[y].ts == e.ts {
+            let y = choose|y: int| 0 <= y < s.len() && #[trigger] s[y].key == e.key && s[y].ts == e.ts;
+            assert(cs[i].ents()[y].key == cs[w].ents()[j].key);
+        }
+    }
+    lemma_sum_indicator(cs, f, g, w);
+}
+// mergeable follows from sorted + distinct
+proof fn lemma_mergeable<C: Cursor>(cs: Seq<C>)
+    requires all_sorted(cs), distinct(cs)
+    ensures mergeable(cs)
+{
+    assert(total(cs) >= 0) by {
+        lemma_sum_zero(cs);
+        lemma_sum_le(cs, |c: C| 0int, |c: C| c.ents().len() as int);
+    }
+    assert forall|r: int| 0 <= r < total(cs) implies #[trigger] has_rank(cs, r) by { lemma_all_ranks(cs, r); }
+}
+
 // ---------------------------------------------------------------- permuting the family changes none of the above
 proof fn lemma_member_as_allq<C: Cursor>(cs: Seq<C>, e: Ent)
     ensures member(cs, e) == !allq(cs, |c: C| !c.ents().contains(e))
@@ -972,6 +1107,8 @@ impl<C: Cursor> MergingCursor<C> {
     // cursor but cannot tell before-first from after-last), fewer than 2^62 children, sorted tables with
     // pairwise distinct (key, timestamp) pairs
     spec fn base(&self) -> bool { 1 <= self.n() <= 0x3fff_ffff_ffff_ffff && all_base(self.cursors@) && mergeable(self.cursors@) }
+    // the precondition proper: mergeable() follows from it (lemma_mergeable)
+    spec fn pre_base(&self) -> bool { 1 <= self.n() <= 0x3fff_ffff_ffff_ffff && all_base(self.cursors@) && all_sorted(self.cursors@) && distinct(self.cursors@) }
     // Forward rest states: (A) a heap whose children all sit at their first entry >= the root's entry (or all
     // at their end); (B) just after seek_to_first: root rewound to before-first, the others on their first entry
     spec fn fwd_a(&self) -> bool {
@@ -1296,7 +1433,7 @@ impl<C: Cursor> Cursor for MergingCursor<C> {
     spec fn pos(&self) -> int {
         match self.comparator { Comparator::Forward => self.sumpos(), Comparator::Reverse => self.sumpos() + self.n() - 1 }
     }
-    spec fn wf_base(&self) -> bool { self.base() }
+    spec fn wf_base(&self) -> bool { self.pre_base() }
     spec fn wf(&self) -> bool {
         &&& self.base() && self.kids_wf()
         &&& match self.comparator { Comparator::Forward => self.fwd_a() || self.fwd_b(), Comparator::Reverse => self.rev_a() || self.rev_b() }
@@ -1306,7 +1443,8 @@ impl<C: Cursor> Cursor for MergingCursor<C> {
 
     proof fn lemma_cursor_laws(&self) {
         let cs = self.cursors@;
-        if self.base() {
+        if self.pre_base() {
+            lemma_mergeable(cs);
             lemma_merged_sorted(cs);
         }
         if self.wf() {
@@ -1352,7 +1490,7 @@ impl<C: Cursor> Cursor for MergingCursor<C> {
 //@ rewrite X13 `cursor.seek(key)?;` => `self.cursors[idx].seek(key)?;`
 //@ bodystart <<
         let ghost low = key_below(key@);
-        proof { lemma_key_below_closed(key@); lemma_lex_order_total(); }
+        proof { lemma_key_below_closed(key@); lemma_lex_order_total(); lemma_mergeable(self.cursors@); }
 //@ >>
 //@ loop 0 <<
             invariant
@@ -1402,6 +1540,7 @@ impl<C: Cursor> Cursor for MergingCursor<C> {
 //@ rewrite X13 `cursor.next()?;` => `self.cursors[idx].next()?;`
 //@ bodystart <<
         let ghost low = |x: Ent| false;
+        proof { lemma_mergeable(self.cursors@); }
 //@ >>
 //@ loop 0 <<
             invariant
@@ -1467,6 +1606,7 @@ impl<C: Cursor> Cursor for MergingCursor<C> {
 //@ rewrite X13 `cursor.prev()?;` => `self.cursors[idx].prev()?;`
 //@ bodystart <<
         let ghost high = |x: Ent| false;
+        proof { lemma_mergeable(self.cursors@); }
 //@ >>
 //@ loop 0 <<
             invariant
